@@ -124,17 +124,5 @@ def _replay_direct(case):
 
 
 def replay(case):
-    """direct replay of the recorded trace; if the recorded violation depends on state that rule objects
-    carried over from the exploration of the same seed, fall back to re-exploring that seed from fresh
-    rule objects (deterministic: rule objects are reset per seed)"""
-    want = case.get("_core")
-    try:
-        got = _replay_direct(case)
-    except Exception:  # noqa
-        got = []
-    if got and (want is None or any(c == want for c, _ in got)):
-        return got
-    again = steps.reexplore(case, V)
-    if want is not None and any(c == want for c, _ in again):
-        return [(c, d) for c, d in again if c == want]
-    return again or got
+    """three-level replay, each level in a fresh process (see steps.layered_replay)"""
+    return steps.layered_replay(case, _replay_direct, V)
